@@ -34,6 +34,7 @@ import (
 	"context"
 	"fmt"
 	"math/rand/v2"
+	"os"
 	"strings"
 	"time"
 
@@ -45,7 +46,7 @@ import (
 )
 
 type fullSpec struct {
-	Scenario string `json:"scenario"` // zones | dead | client | shed-global | shed-zone | enforce | killswitch
+	Scenario string `json:"scenario"` // zones | dead | client | shed-global | shed-zone | enforce | killswitch | enrich
 	MinMS    int64  `json:"min_ms"`   // 0 = default
 	MaxMS    int64  `json:"max_ms"`
 	Half     string `json:"half"` // behaviour of the failing server of the partly-alive zone: refused | servfail | drop
@@ -88,6 +89,7 @@ type fullRun struct {
 	partly  map[string]bool   // zones with a failing and an honest server
 	tainted map[string]bool   // see "Load robustness"
 	locals  map[qkey]string   // every key a request-local cause was injected for (white-box attribution)
+	zlocals map[string]string // zones only a request-local / optional resolution failed in
 	timeout time.Duration     // the resolver's upstream timeout
 	nclient int
 	nname   int
@@ -123,7 +125,7 @@ func scriptFor(mode string) authsim.Action {
 func newFullRun(r *vlib.Run, c fullCase) (*fullRun, error) {
 	f := &fullRun{r: r, c: c, rng: rand.New(rand.NewPCG(c.Spec.Seed, 0xC13)),
 		zones: map[string]*fullZone{}, failed: map[string]bool{}, partly: map[string]bool{},
-		tainted: map[string]bool{}, locals: map[qkey]string{}}
+		tainted: map[string]bool{}, locals: map[qkey]string{}, zlocals: map[string]string{}}
 	u := authsim.New()
 	f.u = u
 	sr, st := u.AddServer("root"), u.AddServer("tld")
@@ -153,6 +155,21 @@ func newFullRun(r *vlib.Run, c fullCase) (*fullRun, error) {
 	add(tld, "half.test.", "half", 2)
 	add(tld, "dead.test.", "refused", 2) // starts as REFUSED (fast), switched to drop with the delegation cached
 	add(ok.zone, "bad.ok.test.", "refused", 2)
+	if c.Spec.Scenario == "enrich" {
+		// v4-only glue: the resolver will try to learn the NS hosts' AAAA in the
+		// background (optional enrichment), and that lookup fails at every server
+		v1, v2 := u.AddV4Only("v6a"), u.AddV4Only("v6b")
+		z := u.AddZone(zm.Spec{Apex: "v6.test."}, v1, v2)
+		u.Delegate(tld, z, authsim.DelegOpts{})
+		for i := 0; i < 4; i++ {
+			z.AddMarked(fmt.Sprintf("h%d.v6.test.", i), dns.TypeA, 300)
+		}
+		f.zones["v6.test."] = &fullZone{apex: "v6.test.", servers: []*authsim.Server{v1, v2}, zone: z, mode: "honest"}
+		for _, h := range u.NSHosts("v6.test.") {
+			v1.On(h.Name, dns.TypeAAAA, authsim.Rcode(dns.RcodeServerFailure))
+			v2.On(h.Name, dns.TypeAAAA, authsim.Rcode(dns.RcodeServerFailure))
+		}
+	}
 	for _, z := range f.zones {
 		f.applyMode(z)
 	}
@@ -172,12 +189,16 @@ func newFullRun(r *vlib.Run, c fullCase) (*fullRun, error) {
 			cfg.MaxConcurrentQueries = 256 // per-zone quota max(256/16,16) = 16
 		case "enforce":
 			cfg.RecursionFirewall.Mode = config.RecursionFirewallModeEnforce
-			cfg.RecursionFirewall.MaxOutboundQueries = 2
+			cfg.RecursionFirewall.MaxOutboundQueries = 1
 		case "killswitch":
 			no := false
 			cfg.RFC9520 = &no
 		}
 		cfg.Prefetch = 0
+		// IPv6 NS-address enrichment sleeps a fixed 2 s (holding a limiter slot)
+		// after every newly learned delegation; only the enrichment scenario
+		// pays for that.
+		cfg.IPv6Access = c.Spec.Scenario == "enrich"
 		f.timeout = cfg.Timeout.Duration
 	})
 	if err != nil {
@@ -203,6 +224,9 @@ func newFullRun(r *vlib.Run, c fullCase) (*fullRun, error) {
 }
 
 func (f *fullRun) applyMode(z *fullZone) {
+	if z.apex == "v6.test." {
+		return // keeps its per-question rules
+	}
 	for _, s := range z.servers {
 		s.ClearScript(false)
 	}
@@ -314,6 +338,9 @@ func (f *fullRun) Q(tag, client, name string, qtype uint16, cd bool, mods qmods)
 		return fout{}
 	}
 	p1 := time.Now()
+	if os.Getenv("C13_DEBUG") != "" {
+		fmt.Fprintf(os.Stderr, "full %d/%s op %-24s %-28s query=%v quiesce=%v\n", f.c.Index, f.c.Spec.Scenario, tag, name, wall.Round(time.Millisecond), (p1.Sub(p0) - wall).Round(time.Millisecond))
+	}
 	pk := f.u.Log.Since(from)
 	out := fout{Packets: len(pk), Wall: wall, MustReach: mustReach}
 	if len(replies) > 0 && replies[0] != nil {
@@ -423,6 +450,8 @@ func (f *fullRun) Q(tag, client, name string, qtype uint16, cd bool, mods qmods)
 			r.Count("full_local_followup_"+c, 1)
 			if out.Packets > 0 {
 				r.Count("full_local_followup_reached_"+c, 1)
+				sampleOnce(r, "full-local-followup", map[string]any{"part": "ii full pipeline", "what": "after a request-local failure another client asking the same question reached the authorities",
+					"cause": c, "scenario": f.c.Spec, "query": desc, "reply": f.c.Ops[idx].Got})
 			}
 			if out.EDE13 {
 				// reached upstream AND claims a cached error: still a leak of failure state
@@ -498,6 +527,8 @@ func (f *fullRun) checkState(idx int, tag string) {
 			switch {
 			case f.tainted[name] || f.taintedAbove(name):
 				r.Count("full_state_skipped_tainted", 1)
+			case f.zlocals[name] != "":
+				r.Violation("local/"+f.zlocals[name]+"/recorded", "full pipeline: a failure of "+f.zlocals[name]+" work became a shared zone failure: "+desc, f.replay())
 			case f.partly[name]:
 				r.Violation("zone/recorded-partly-alive", "full pipeline: a zone failure was recorded for a zone one server of which answers every query: "+desc, f.replay())
 			case !f.failed[name]:
@@ -710,7 +741,7 @@ func (f *fullRun) scenarioClient() {
 	f.warm()
 	ok := f.zones["ok.test."]
 	for i := 0; i < 3; i++ {
-		cause := []string{"cancel", "deadline"}[f.rng.IntN(2)]
+		cause := []string{"cancel", "deadline"}[(i+f.c.Index)%2]
 		name, qt := fmt.Sprintf("h%d.ok.test.", 2+i), dns.TypeA
 		g := authsim.NewGate()
 		ok.servers[0].ClearScript(false)
@@ -885,11 +916,13 @@ func (f *fullRun) qNoQuiesce(tag, client, name string, qtype uint16, cause strin
 	return out
 }
 
-// scenarioEnforce: recursion_firewall mode=enforce with a 2-query budget: a
-// cold resolution runs out of budget; that is the requesting client's problem.
+// scenarioEnforce: recursion_firewall mode=enforce with a 1-query budget: a
+// resolution that needs a referral runs out of budget; that is the requesting
+// client's problem.
 func (f *fullRun) scenarioEnforce() {
-	for i := 0; i < 3; i++ {
-		name, qt := fmt.Sprintf("h%d.ok.test.", i), dns.TypeA
+	for i, name := range []string{"h0.ok.test.", "h1.half.test.", "h2.ok.test.", "h3.bad.ok.test."} {
+		_ = i
+		qt := dns.TypeA
 		out := f.Q("local-budget", f.client(), name, qt, false, qmods{local: "budget"})
 		if !(out.HasReply && out.Rcode == dns.RcodeServerFailure) {
 			// the budget was enough: not a local failure after all
@@ -901,6 +934,58 @@ func (f *fullRun) scenarioEnforce() {
 		f.r.Count("full_budget_exhausted_replies", 1)
 		f.Q("local-followup", f.client(), name, qt, false, qmods{})
 	}
+}
+
+// scenarioEnrich: optional enrichment. The delegation of v6.test. carries
+// IPv4 glue only; with ipv6access on the resolver looks the NS hosts' AAAA up
+// in a detached best-effort task, and every server answers that SERVFAIL.
+// Nothing of it may become shared state: the zone keeps resolving, and a
+// client asking the very same AAAA question reaches the authorities.
+func (f *fullRun) scenarioEnrich() {
+	f.warm()
+	var hosts []string
+	for _, h := range f.u.NSHosts("v6.test.") {
+		hosts = append(hosts, canon(h.Name))
+	}
+	for _, h := range hosts {
+		for _, cd := range []bool{false, true} {
+			f.locals[f.key(h, dns.TypeAAAA, cd)] = "enrichment"
+			f.m.local[f.key(h, dns.TypeAAAA, cd)] = "enrichment"
+		}
+	}
+	f.zlocals["v6.test."] = "enrichment"
+	from := f.u.Log.Len()
+	f.Q("enrich-trigger", f.client(), "h0.v6.test.", dns.TypeA, false, qmods{})
+	// the detached task starts after a fixed 2 s pause; Quiesce (inside Q and
+	// here) waits for its limiter slot to be returned
+	seen := 0
+	deadline := time.Now().Add(12 * time.Second)
+	for time.Now().Before(deadline) {
+		seen = 0
+		for _, p := range f.u.Log.Since(from) {
+			if p.QType == dns.TypeAAAA && strings.HasPrefix(p.QNameL, "ns") && strings.HasSuffix(p.QNameL, ".v6.test.") {
+				seen++
+			}
+		}
+		if seen > 0 && f.rs.Quiesce(5*time.Second) {
+			break
+		}
+		time.Sleep(20 * time.Millisecond)
+	}
+	if seen == 0 {
+		f.r.Count("full_enrichment_not_observed", 1)
+		return
+	}
+	f.r.Count("full_enrichment_failures_observed", 1)
+	f.checkState(len(f.c.Ops)-1, "after-enrichment")
+	f.Q("enrich-sibling", f.client(), "h1.v6.test.", dns.TypeA, false, qmods{})
+	// A client asking the same AAAA question is a required resolution: it must
+	// reach the authorities, and ITS failure (every server answers SERVFAIL to
+	// this question) may be recorded like any other.
+	delete(f.zlocals, "v6.test.")
+	f.zones["v6.test."].mode = "perq"
+	f.failed["v6.test."] = true
+	f.Q("local-followup", f.client(), hosts[f.rng.IntN(len(hosts))], dns.TypeAAAA, f.rng.IntN(2) == 0, qmods{})
 }
 
 // scenarioKill: rfc9520=false in the real pipeline.
@@ -939,6 +1024,8 @@ func runFullCase(r *vlib.Run, c fullCase) {
 		f.scenarioEnforce()
 	case "killswitch":
 		f.scenarioKill()
+	case "enrich":
+		f.scenarioEnrich()
 	}
 	if r.ReplayCase() != nil {
 		for _, o := range f.c.Ops {
@@ -956,13 +1043,13 @@ var fullBounds = [][2]int64{{0, 0}, {1000, 4000}, {2000, 0}, {1000, 1000}, {3000
 func fullSpecFor(r *vlib.Run, i int) fullSpec {
 	rng := r.RandN("full", i)
 	// the scenario mix is a fixed function of the index
-	scen := []string{"zones", "client", "shed-global", "shed-zone", "enforce", "killswitch", "zones", "dead"}[i%8]
+	scen := []string{"zones", "client", "shed-global", "shed-zone", "enforce", "killswitch", "zones", "dead", "enrich"}[i%9]
 	b := fullBounds[rng.IntN(len(fullBounds))]
 	return fullSpec{Scenario: scen, MinMS: b[0], MaxMS: b[1], Half: []string{"refused", "servfail", "drop"}[rng.IntN(3)], Seed: rng.Uint64()}
 }
 
 func runFullChild(r *vlib.Run) {
-	n := r.N(8, 240)
+	n := r.N(9, 270)
 	for i := 0; i < n; i++ {
 		runFullCase(r, fullCase{Kind: "full", Index: i, Spec: fullSpecFor(r, i)})
 		r.Progress("full case %d/%d", i+1, n)
